@@ -1,4 +1,6 @@
 import BreezyVerif.Lemmas.C40
+import BreezyVerif.Lemmas.C40B
+import BreezyVerif.Lemmas.C40F
 /-!
 C40 — theorems.  Repositories (any parent map, ghosts included), base and target
 revisions, directives, patches and byte strings are universally quantified;
@@ -7,7 +9,7 @@ nothing is bounded.
 namespace BreezyVerif.C40
 
 open BreezyVerif.C03 (Rev FileId TextKey Entry RevRec Inv Repo get hasRev graph reach anc invOrEmpty
-  Exclusion streamEntries testament agree agreeOn complete)
+  Exclusion streamEntries testament agree agreeOn complete noOrphanInv)
 open BreezyVerif.C33 (Reach)
 
 /-! ## bundles -/
@@ -22,9 +24,6 @@ theorem bundle_revs_spec (src : Repo) (base target k : Rev) :
 theorem bundle_partition (src : Repo) (base target k : Rev) (hk : k ∈ anc src target) :
     k ∈ bundleRevs src base target ∨ k ∈ anc src base :=
   anc_cases src base target k hk
-
-/-- "the repository contains the base": every source-present ancestor of the base -/
-def holdsBase (src tgt : Repo) (base : Rev) : Bool := (anc src base).all (hasRev tgt)
 
 /-- a written v4 bundle holds exactly the source's records of the bundled revisions -/
 theorem bundle_contents (sel : TextSel) (src : Repo) (base target : Rev) (b : Bundle)
@@ -106,6 +105,46 @@ theorem install_returns_target (sel : TextSel) (src tgt : Repo) (base target : R
   rw [if_pos ht, List.filterMap_append]
   simp [hrec]
 
+/-- **Complete install (format 4).**  Under the hypotheses of `bundle_install_faithful`
+and the source condition of the text selection (`selOK`: CHK — boundary parents are
+chosen by revision presence or the source stores no inventory of an absent revision;
+XML — the revision that last changed an entry is a source-present ancestor whose own
+inventory has that text key), the repository after the install is complete again:
+every revision has its inventory and every text its inventory names.  This is the
+statement about `fileids_altered_by_revision_ids`: what it leaves out is already held. -/
+theorem bundle_install_complete (sel : TextSel) (src tgt : Repo) (base target : Rev) (b : Bundle)
+    (hb : holdsBase src tgt base = true) (ha : agree src tgt = true) (hc : complete tgt = true)
+    (hs : selOK sel src = true) (hw : writeV4 sel src base target = .ok b) :
+    complete (installV4 b tgt).1 = true :=
+  complete_installV4 sel src tgt base target b hb ha hc hs hw
+
+/-- … and every file text of every source-present ancestor of the target is there with
+the source's content (the part of the testament's meaning that lives in the texts) -/
+theorem bundle_install_texts_faithful (sel : TextSel) (src tgt : Repo) (base target : Rev) (b : Bundle)
+    (hb : holdsBase src tgt base = true) (ha : agree src tgt = true) (hc : complete tgt = true)
+    (hs : selOK sel src = true) (hw : writeV4 sel src base target = .ok b)
+    (k : Rev) (hk : k ∈ anc src target) (i : Inv) (hi : get src.invs k = some i) (e : Entry) (he : e ∈ i) :
+    ∃ c, get (installV4 b tgt).1.texts e.key = some c ∧ ∀ c', get src.texts e.key = some c' → c' = c := by
+  rcases anc_cases src base target k hk with hm | hbase
+  · exact installed_text hb ha hc hs hw hm hi he
+  · obtain ⟨c, hc0⟩ := C03.text_of_held ha hc (List.all_eq_true.mp hb k hbase) hi he
+    exact ⟨c, C03.get_append_some hc0, fun c' hc' => C03.agreeOn_eq (C03.agree_texts ha) hc0 hc'⟩
+
+/-- why `selOK` is needed for CHK bundles as the code selects texts (`asFound`): the
+source stores the inventory of a ghost parent (1) that shares an entry with the bundled
+revision (2); the entry counts as uninteresting, its text is not bundled, and a
+repository that holds the (empty) base ends up without it -/
+theorem bundle_orphan_inventory_witness :
+    let src : Repo := { revs := [(2, ⟨[1], 20⟩)], invs := [(1, [⟨1, 1, 1, 100⟩]), (2, [⟨1, 1, 1, 100⟩])],
+                        texts := [((1, 1), 100)] }
+    let tgt : Repo := { revs := [], invs := [], texts := [] }
+    holdsBase src tgt 0 = true ∧ agree src tgt = true ∧ complete tgt = true ∧
+    selOK (.chk .asFound) src = false ∧ selOK (.chk .revisionPresent) src = true ∧
+    (match writeV4 (.chk .asFound) src 0 2, writeV4 (.chk .revisionPresent) src 0 2 with
+      | .ok b, .ok b' => (b.texts, complete (installV4 b tgt).1, complete (installV4 b' tgt).1) == ([], false, true)
+      | _, _ => false) = true := by
+  decide +kernel
+
 /-- **Faithful install (formats 0.8 / 0.9).**  Same statement for the patch-based
 bundle: if writing and installing succeed, every source-present ancestor of the
 target is in the repository with the source's revision record, inventory and
@@ -185,6 +224,13 @@ theorem bundle09_install_faithful (src tgt t' : Repo) (base target : Rev)
     unfold testament
     rw [hrevs, hinvs, hrec, hinv]
 
+/-- **Complete install (formats 0.8 / 0.9).**  The patch-based formats carry every text
+of every bundled tree: no condition on the source beyond what writing needs -/
+theorem bundle09_install_complete (src tgt t' : Repo) (base target : Rev)
+    (ha : agree src tgt = true) (hc : complete tgt = true)
+    (hw : roundtrip09 src tgt base target = .ok t') : complete t' = true :=
+  complete_install09 src tgt t' base target ha hc hw
+
 /-! ## merge directives -/
 
 /-- splitting into lines loses nothing (both splitters) -/
@@ -226,12 +272,13 @@ theorem directive_roundtrip {α : Type} (c : Codec α) (hc : CodecLaw c) (d : Di
 
 /-- **Round trip (through a file).**  Writing `b"".join(to_lines(d))` and parsing
 the file object line by line gives `d` back, provided the stanza lines are
-physical lines, no `\n`-line of the patch starts with the bundle marker, and
-patch and bundle are empty or end with a newline. -/
+physical lines, no `\n`-line of the patch starts with the bundle marker, and a
+patch that is followed by a bundle is empty or ends with a newline
+(`directive_file_nonl_witness` shows what happens otherwise). -/
 theorem directive_roundtrip_file {α : Type} (c : Codec α) (hc : CodecLaw c) (d : Directive α)
     (hl : ∀ l ∈ c.enc d.fields, isLine l = true)
     (hd : patchOk splitNL d.patch = true)
-    (hp : ∀ x, d.patch = some x → endsNL x = true) :
+    (hp : ∀ x y, d.patch = some x → d.bundle = some y → endsNL x = true) :
     fromLines c (splitNL (joinLines (toLines c d))) = .ok d := by
   have hH : isLine header2 = true := by decide
   have hB : isLine blank = true := by decide
@@ -270,8 +317,7 @@ theorem directive_roundtrip_file {α : Type} (c : Codec α) (hc : CodecLaw c) (d
           simp only [joinLines] at this
           rw [this]; rfl
       | some p =>
-        have hpe := hp p hpp
-        cases d.bundle with
+        cases hbb : d.bundle with
         | none =>
           simp only [payload, List.append_nil, joinLines, List.flatten_cons]
           rw [splitNL_append _ _ (isLine_endsNL hBP), splitNL_isLine _ hBP]
@@ -279,6 +325,7 @@ theorem directive_roundtrip_file {α : Type} (c : Codec α) (hc : CodecLaw c) (d
           simp only [joinLines] at this
           rw [this]; rfl
         | some b =>
+          have hpe := hp p b hpp hbb
           simp only [payload, List.cons_append, joinLines, List.flatten_cons, List.flatten_append]
           have h1 := joinLines_splitLines p
           have h2 := joinLines_splitLines b
@@ -311,6 +358,79 @@ theorem directive_marker_witness :
       | .error _ => false) = true := by
   decide +kernel
 
+/-- **Finding** (family `directive-file-roundtrip-patch-without-final-newline-before-bundle`):
+a patch whose last line has no newline, followed by a bundle.  As a line list the
+directive round-trips; written to a file and read back the bundle marker no longer
+starts a line: the marker and the whole bundle are appended to the patch and the
+bundle is lost. -/
+theorem directive_file_nonl_witness :
+    let d : Directive (List Line) := ⟨[], some [43, 97], some [81, 10]⟩
+    (match fromLines blockCodec (toLines blockCodec d),
+        fromLines blockCodec (splitNL (joinLines (toLines blockCodec d))) with
+      | .ok d1, .ok d2 => d1 == d && d2 == ⟨[], some ([43, 97] ++ beginBundle ++ [81, 10]), none⟩
+      | _, _ => false) = true := by
+  decide +kernel
+
+/-! ## the directive's fields (stanza built by `_to_lines`, read by `_from_lines`; timestamp codec) -/
+
+/-- `parse_patch_date(format_patch_date(t, tz)) = (t, tz)` for every whole-second time and
+every offset that is a multiple of a minute, below a day in magnitude, with `t + tz ≥ 0`
+in years 0..9999 and (`t = 0 → tz = 0`: the epoch is always written in UTC) -/
+theorem patch_date_roundtrip (secs off : Int) (h : dateOK secs off = true) :
+    ∃ s, formatPatchDate secs off = .ok s ∧ parsePatchDate s = .ok (secs, off) :=
+  patchDate_roundtrip secs off h
+
+/-- **Round trip of all fields (line list).**  For every stanza line codec satisfying the
+round-trip law (bzrformats' rio_patch; assumed, checked per case) and every directive with a
+testament sha1, a merge source (public branch or bundle) and a date in the timestamp's
+domain, whose patch has no line starting with the bundle marker: `to_lines` succeeds and
+`from_lines` gives back revision id, testament sha1, time, timezone, target and source
+branch, message, base revision id, patch and bundle. -/
+theorem directive_fields_roundtrip (rio : Codec Stanza) (hc : CodecLaw rio) (d : Directive Fields)
+    (hf : fieldsOK d = true) (hd : patchOk splitLines d.patch = true) :
+    ∃ lines, toLinesF rio d = .ok lines ∧ fromLinesF rio lines = .ok d := by
+  simp only [fieldsOK, Bool.decide_and, Bool.decide_or, Bool.and_eq_true, Bool.or_eq_true, decide_eq_true_eq] at hf
+  obtain ⟨ht, hsrc, hdate⟩ := hf
+  obtain ⟨st, hst, hback⟩ := fields_roundtrip d.fields d.bundle.isSome ht hsrc hdate
+  refine ⟨toLines rio ⟨st, d.patch, d.bundle⟩, by simp only [toLinesF, hst], ?_⟩
+  unfold fromLinesF
+  rw [directive_roundtrip rio hc ⟨st, d.patch, d.bundle⟩ hd]
+  simp only [hback]
+
+/-- **… and through a file**, under the additional conditions of `directive_roundtrip_file` -/
+theorem directive_fields_roundtrip_file (rio : Codec Stanza) (hc : CodecLaw rio) (d : Directive Fields)
+    (hf : fieldsOK d = true) (hl : ∀ st, ∀ l ∈ rio.enc st, isLine l = true)
+    (hd : patchOk splitNL d.patch = true)
+    (hp : ∀ x y, d.patch = some x → d.bundle = some y → endsNL x = true) :
+    ∃ lines, toLinesF rio d = .ok lines ∧ fromLinesF rio (splitNL (joinLines lines)) = .ok d := by
+  simp only [fieldsOK, Bool.decide_and, Bool.decide_or, Bool.and_eq_true, Bool.or_eq_true, decide_eq_true_eq] at hf
+  obtain ⟨ht, hsrc, hdate⟩ := hf
+  obtain ⟨st, hst, hback⟩ := fields_roundtrip d.fields d.bundle.isSome ht hsrc hdate
+  refine ⟨toLines rio ⟨st, d.patch, d.bundle⟩, by simp only [toLinesF, hst], ?_⟩
+  unfold fromLinesF
+  rw [directive_roundtrip_file rio hc ⟨st, d.patch, d.bundle⟩ (hl st) hd hp]
+  simp only [hback]
+
+/-- by design ("we always give the epoch in utc"): at time 0 the timezone is not kept -/
+theorem directive_epoch_timezone_witness :
+    (match formatPatchDate 0 3600 with
+      | .ok s => parsePatchDate s == .ok (0, 0)
+      | .error _ => false) = true := by
+  decide +kernel
+
+/-- **Finding** (family `directive-without-testament-sha1-does-not-parse`): `_to_lines` leaves
+out a `testament_sha1` that is None, but `_from_lines` calls the constructor without the
+keyword it requires: the directive serialises and then cannot be parsed (TypeError) -/
+theorem directive_no_testament_witness :
+    (match toPairs ⟨['r'], none, 86400, 0, ['t'], some ['s'], none, ['b']⟩ with
+      | .ok st => fromPairs st false == .error .typeError
+      | .error _ => false) = true := by
+  decide +kernel
+
+/-- the offset's sign belongs to hours and minutes (fix b80d98c) -/
+example : parsePatchDate "2019-01-01 00:00:00 -0330".toList = .ok (1546313400, -12600) := by decide +kernel
+example : dateOK 1500000000 (-12600) = true ∧ dateOK 0 0 = true ∧ dateOK 0 3600 = false := by decide +kernel
+
 /-! ## patch verification -/
 
 /-- the verifier accepts the patch the directive was made with -/
@@ -340,6 +460,48 @@ theorem tamper_detected (calcd pre post : Bytes) (x y : UInt8) (hxy : x ≠ y)
     have := List.append_cancel_left e
     simp only [List.cons.injEq] at this
     exact absurd this.1 hxy
+
+/-- **Tampering is detected, general form.**  Whatever is done to a verified patch — any
+number of replacements, insertions, deletions, anywhere — if the sequence of bytes other
+than space, CR and LF changes, the verification fails. -/
+theorem tamper_detected_general (calcd s s' : Bytes) (hv : verifyPatch calcd s = true)
+    (hne : nonws s' ≠ nonws s) : verifyPatch calcd s' = false := by
+  cases h : verifyPatch calcd s' with
+  | false => rfl
+  | true => exact absurd ((verify_nonws h).trans (verify_nonws hv).symm) hne
+
+/-- inserting a byte other than space, CR, LF anywhere is detected -/
+theorem tamper_insert_detected (calcd pre post : Bytes) (y : UInt8) (hy : isWs y = false)
+    (hv : verifyPatch calcd (pre ++ post) = true) : verifyPatch calcd (pre ++ y :: post) = false := by
+  apply tamper_detected_general calcd _ _ hv
+  intro h
+  have := congrArg List.length h
+  rw [nonws_insert_length pre post y hy] at this
+  omega
+
+/-- deleting a byte other than space, CR, LF anywhere is detected -/
+theorem tamper_delete_detected (calcd pre post : Bytes) (x : UInt8) (hx : isWs x = false)
+    (hv : verifyPatch calcd (pre ++ x :: post) = true) : verifyPatch calcd (pre ++ post) = false := by
+  apply tamper_detected_general calcd _ _ hv
+  intro h
+  have := congrArg List.length h
+  rw [nonws_insert_length pre post x hx] at this
+  omega
+
+/-- replacing a space, CR or LF by any other byte (or the other way round) is detected -/
+theorem tamper_ws_swap_detected (calcd pre post : Bytes) (x y : UInt8) (hx : isWs x = true) (hy : isWs y = false) :
+    (verifyPatch calcd (pre ++ x :: post) = true → verifyPatch calcd (pre ++ y :: post) = false) ∧
+    (verifyPatch calcd (pre ++ y :: post) = true → verifyPatch calcd (pre ++ x :: post) = false) := by
+  have hx' : nonws (pre ++ x :: post) = nonws (pre ++ post) := by
+    simp [nonws, List.filter_append, List.filter_cons, hx]
+  have hlen := nonws_insert_length pre post y hy
+  constructor
+  · intro hv
+    apply tamper_detected_general calcd _ _ hv
+    intro h; have := congrArg List.length h; rw [hx', hlen] at this; omega
+  · intro hv
+    apply tamper_detected_general calcd _ _ hv
+    intro h; have := congrArg List.length h; rw [hx', hlen] at this; omega
 
 /-- by design, differences in line endings and trailing spaces are *not* detected -/
 theorem verify_whitespace_witness :
@@ -374,6 +536,11 @@ example : (match writeV4 .xml eSrc 2 4, roundtrip09 eSrc eTgt 2 4 with
           && complete t
       | _, _ => false) = true := by
   decide +kernel
+
+example : selOK (.chk .asFound) eSrc = true ∧ selOK .xml eSrc = true ∧ selOK (.chk .revisionPresent) eSrc = true := by
+  decide +kernel
+
+example : nonws [43, 97, 32, 10] ≠ nonws [43, 98, 10] := by decide
 
 example : patchOk splitLines (some [43, 35, 32, 66, 10]) = true ∧ isLine blank = true ∧
     endsNL [43, 97, 10] = true ∧ isWs 97 = false := by decide
